@@ -10,6 +10,10 @@ Every generated history is executed three ways:
   * on `Book`, a dict-of-sets rendering of the property statement kept by this file (the oracle).
 Compared per operation: which transport got the event on which namespace how many times, every
 `rooms()` answer, results / exception classes of API calls, where DISCONNECT packets went.
+
+Besides the histories (API called between inputs), `run_active` runs harness/active_handlers.py: the same API
+called from INSIDE the application's connect / event / disconnect handlers and, on asyncio, from another task while
+such a handler is suspended — judged by the same `Book`, read at the moment of the call (oracle only).
 """
 import collections
 import glob
@@ -20,6 +24,7 @@ import time
 
 from .. import common as C
 from .. import world as W
+from .. import active_handlers as AH
 
 LEVEL = 'proof'
 
@@ -698,6 +703,94 @@ def judge(ctx, drv, family, served, ops, model=None, shrink_it=True):
     return real, model, not (obad or cbad or sbad)
 
 
+# ---------------------------------------------------------------- the API called from inside handlers (oracle only)
+
+def active_failures(scn, families=('threading', 'asyncio')):
+    """-> (failures [(family, op index, text)], {family: real trace})"""
+    bad, real = [], {}
+    for family in families:
+        real[family] = AH.run_real(family, scn)
+        bad += [(family, i, t) for i, t in AH.oracle_failures(scn, real[family], family)]
+    if len(real) == 2 and not bad:
+        bad += [('both', i, 'the two server families answer differently: ' + t)
+                for i, t in AH.family_differences(scn, real['threading'], real['asyncio'])]
+    return bad, real
+
+
+def run_active(ctx):
+    """C03 read at the moment of a call made from inside a connect / event / disconnect handler (or, asyncio, from another
+    task while that handler is suspended): harness/active_handlers.py"""
+    n = ctx.scale(350, 5000)
+    deadline = time.time() + ctx.scale(14, 90)
+    ran = failures = skipped = 0
+    calls = own_rooms = handler_emits = 0
+    samples = []
+    for _ in range(n):
+        if time.time() > deadline or failures >= 2:
+            break
+        scn = AH.gen_scenario(ctx.rng)
+        if not AH.in_domain(scn):
+            skipped += 1
+            continue
+        ran += 1
+        bad, real = active_failures(scn)
+        AH.stats(ctx, scn, real['threading'])
+        a, b, c = AH.summary(scn, real['threading'])
+        calls, own_rooms, handler_emits = calls + a, own_rooms + b, handler_emits + c
+        ctx.count('active.style.' + scn['style'])
+        if bad:
+            failures += 1
+            fam = bad[0][0]
+            fams = ('threading', 'asyncio') if fam == 'both' else (fam,)
+            small = AH.shrink(scn, lambda cand: bool(active_failures(cand, fams)[0]))
+            sbad, sreal = active_failures(small, fams)
+            sbad = sbad or bad
+            ctx.violation('oracle', 'API called from inside a handler: %s: %s' % (sbad[0][0], sbad[0][2]),
+                          {'kernel': 'active_handlers', 'families': list(fams), 'scenario': small,
+                           'failures': ['%s: %s' % (f, t) for f, _i, t in sbad[:6]],
+                           'observed': {f: [{'invocations': r['invocations'], 'api': r['api'], 'answer': r['answer']}
+                                            for r in tr] for f, tr in sreal.items()}})
+        elif len(samples) < 2 and b and c and len(scn['ops']) <= 14:
+            samples.append({'scenario': scn, 'observed_threading': [
+                {'invocations': r['invocations'], 'api': r['api']} for r in real['threading']]})
+    ctx.coverage['active_handler_scenarios'] = ran
+    ctx.coverage['active_handler_traces_validated_against_impl'] = 2 * ran
+    ctx.coverage['active_handler_calls_inside_disconnect_handlers'] = calls
+    ctx.coverage['active_handler_rooms_of_the_ending_session_with_2plus_rooms'] = own_rooms
+    ctx.coverage['active_handler_emits_from_a_disconnect_handler_delivered'] = handler_emits
+    ctx.coverage['active_handler_skipped_outside_domain'] = skipped
+    ctx.coverage['active_handler_samples'] = samples
+    ctx.coverage['active_handler_rule'] = (
+        'ORACLE ONLY (the Lean rooms model has no notion of "inside a handler"): scenarios over 2-4 transports and 1-2 '
+        'namespaces in which the application\'s connect / event / disconnect handlers (functions or class-based Namespaces), '
+        'when the real Server / AsyncServer invokes them, make scripted calls rooms(sid) of the client being handled and of '
+        'others, enter_room, leave_room, close_room, emit(to=room, skip_sid) -- inside the handler, and (asyncio) from another '
+        'task while the coroutine handler is suspended on a harness-owned future; sessions are ended by client DISCONNECT, '
+        'disconnect() and transport loss. Every answer is compared with the dict-of-sets oracle read at the moment of the '
+        'call: during its disconnect handler a session is still a member of what it entered and has not left; emits from '
+        'there reach every other member exactly once (the ending session itself: at most as often); afterwards it is in no '
+        'room; the two families must agree. Counted in the distribution under active.*')
+
+
+def replay_active(ctx, r):
+    scn = r['scenario']
+    fams = tuple(r.get('families') or ('threading', 'asyncio'))
+    bad, real = active_failures(scn, fams)
+    for fam, tr in real.items():
+        print('--- %s' % fam)
+        for i, (op, rec) in enumerate(zip(scn['ops'], tr)):
+            print('%3d %s' % (i, json.dumps({k: v for k, v in op.items() if k != 'h'})))
+            for inv in rec['invocations']:
+                h = (op.get('h') or {}).get(inv['ns']) or {'in': [], 'parked': []}
+                print('      %s handler of %s on %s' % (inv['kind'], inv['sid'], inv['ns']))
+                for j, (c, got) in enumerate(zip(h['in'] + h['parked'], inv['calls'])):
+                    print('        %-6s %s -> %r' % ('inside' if j < len(h['in']) else 'parked', json.dumps(c), got))
+            if rec['api'] is not None:
+                print('      outside -> %r' % (rec['api'],))
+    print('oracle: %s' % ('FAILS: ' + '; '.join('%s: %s' % (f, t) for f, _i, t in bad) if bad else 'holds'))
+    return 1 if bad else 0
+
+
 # ---------------------------------------------------------------- entry points
 
 def run(ctx):
@@ -774,6 +867,7 @@ def run(ctx):
                                     'observed_threading': [repr(x[0]) for x in run_real('threading', served, ops)]})
     finally:
         drv.close()
+    run_active(ctx)
     ctx.coverage.update({
         'evaluations': evals, 'distinct_nontrivial': len(nontrivial),
         'rule': 'one evaluation = one generated history (5-60 operations over 1-6 transports and 1-3 served '
@@ -791,11 +885,17 @@ def run(ctx):
         'namespace only as the last operation of a history, or anywhere when nobody has ever connected to '
         'that namespace (exception class compared, nothing else)',
         'room names: strings, strings equal to session ids, one integer; no tuple/list room names',
+        'API called from inside handlers: while its disconnect handler runs a session still counts as a member of what it '
+        'entered and has not left (BaseManager.pre_disconnect: "the client data structures [are] present while the '
+        'disconnect handler is invoked"); how often an emit issued at that moment reaches the ENDING session itself is '
+        'only bounded from above; the order in which the sessions of one lost transport are ended is taken from the run',
     ]
 
 
 def replay(ctx, r):
     r = r.get('replay', r)
+    if r.get('kernel') == 'active_handlers':
+        return replay_active(ctx, r)
     served, ops = r['served'], r['ops']
     families = [r['family']] if r.get('family') else ['threading', 'asyncio']
     drv = C.Driver('rooms')
